@@ -28,7 +28,7 @@ VF(c, neg, d, e, sp) == [k |-> "f", c |-> c, neg |-> neg, d |-> d, e |-> e, sp |
 VB(b, sp) == [k |-> "b", v |-> b, sp |-> sp]
 VDT(date, time, off, sp) == [k |-> "dt", date |-> date, time |-> time, off |-> off, sp |-> sp]
 VA(vs, sp) == [k |-> "a", v |-> vs, sp |-> sp]
-VT(es, sp) == [k |-> "t", v |-> es, sp |-> sp, kr |-> <<>>]
+VT(es, sp) == [k |-> "t", v |-> es, sp |-> sp, kr |-> <<>>, def |-> "inline"]
 Entry(key, val, prom, ksp) == [key |-> key, val |-> val, prom |-> prom, ksp |-> ksp]
 
 AllButLast(s) == SubSeq(s, 1, Len(s) - 1)
@@ -137,7 +137,7 @@ RECURSIVE TreeAt(_, _), TblEntries(_, _, _, _), AotElems(_, _, _, _)
 TreeAt(ns, p) ==
   LET nd == ns[p] IN
   CASE nd.k = "val" -> nd.val
-    [] nd.k = "tbl" -> VT(TblEntries(ns, p, nd.ch, <<>>), NoSpan)
+    [] nd.k = "tbl" -> [VT(TblEntries(ns, p, nd.ch, <<>>), NoSpan) EXCEPT !.def = nd.def]
     [] nd.k = "aot" -> VA(AotElems(ns, p, 1, <<>>), NoSpan)
 TblEntries(ns, p, ch, acc) ==
   IF ch = <<>> THEN acc
@@ -159,7 +159,7 @@ InlineFold(st, pairs) ==
 
 Inline(pairs, sp) ==
   LET r == InlineFold(InitState, pairs) IN
-  IF r.ok THEN [ok |-> TRUE, v |-> [Tree(r.st) EXCEPT !.sp = sp]] ELSE [ok |-> FALSE, v |-> Dummy]
+  IF r.ok THEN [ok |-> TRUE, v |-> [Tree(r.st) EXCEPT !.sp = sp, !.def = "inline"]] ELSE [ok |-> FALSE, v |-> Dummy]
 
 \* ---- a statement: [kind |-> "std"|"aot"|"kv", path, val] ----
 Apply(st, s) ==
